@@ -369,7 +369,52 @@ func genC08(ctx *fw.Ctx) []fw.Case {
 // accept what LLVM accepts, give every parameter its number, and bind the %N of
 // the body to the right parameter (the body returns a weighted sum that lli
 // evaluates).
+// c08FirstParamImplicit: LLVM 14 does not count an implicit (unnamed, unnumbered)
+// first parameter when it checks the explicit numbers of the later ones, so it
+// accepts `define i32 @f(i32, i32 %0)` (and reads %0 of the body as the first
+// parameter). These numberings are part of what "LLVM accepts".
+func c08FirstParamImplicit(r *fw.Rec) {
+	inputs := map[string]string{
+		"definition":  "define i32 @f(i32, i32 %0) {\n  ret i32 %0\n}\ndefine i32 @main() {\n  %r = call i32 @f(i32 7, i32 9)\n  ret i32 %r\n}\n",
+		"declaration": "declare void @f(i32, i32 %0)\n",
+		"three":       "define i32 @f(i32, i32 %0, i32 %1) {\n  %4 = add i32 %1, %2\n  ret i32 %4\n}\ndefine i32 @main() {\n  %r = call i32 @f(i32 100, i32 20, i32 3)\n  ret i32 %r\n}\n",
+	}
+	want := map[string]int{"definition": 7, "three": 23}
+	for _, name := range fw.SortedKeys(inputs) {
+		x := inputs[name]
+		if okl, _, err := llvmref.Accepts(x); err != nil || !okl {
+			r.Inconclusive("first-parameter-implicit input not accepted by LLVM 14")
+			continue
+		}
+		r.Eval(1)
+		key := "params/rejected/class:first-parameter-implicit-later-ones-explicit"
+		m, perr, pmsg := parseGuard("c08-first-param", x)
+		if pmsg != "" || perr != nil {
+			what := pmsg
+			if perr != nil {
+				what = perr.Error()
+			}
+			r.Violate(fw.Violation{Key: key, Input: x, What: "a parameter numbering LLVM 14 accepts (" + name + ") is rejected by the parser: " + firstLine(what)})
+			continue
+		}
+		if w, ok := want[name]; ok {
+			y, pp := printGuard(m)
+			if pp != "" {
+				r.Violate(fw.Violation{Key: "params/first-implicit/print-panic", Input: x, What: firstLine(pp)})
+				continue
+			}
+			if got, ok, _ := lliExit(y); ok && got != w {
+				r.Violate(fw.Violation{Key: "params/first-implicit/wrong-binding", Input: x, What: fmt.Sprintf("the printed module computes %d, LLVM 14 reads the input as %d", got, w), Observed: y})
+				continue
+			}
+		}
+		r.Nontrivial(x)
+		r.Tally("params", "first-implicit:ok")
+	}
+}
+
 func c08ParamSpellings(r *fw.Rec) {
+	c08FirstParamImplicit(r)
 	rng := r.Ctx().Rand("c08params")
 	for round := 0; round < r.Ctx().Pick(60, 600); round++ {
 		n := 2 + rng.Intn(5)
